@@ -259,11 +259,14 @@ func TestC18(t *testing.T) {
 				}
 				set.Add(faults.Description{Operation: "StreamingPull:RecvMsg", Parameters: map[string]string{"subscription": "a"}, Count: 1,
 					OnFault: func(d faults.Description, p faults.Parameters) error { return firedErr{2} }})
-				// (a unary call naming subscription a in between: its parameters are its own too)
-				if _, uerr := uinj(context.Background(), &pubsubpb.AcknowledgeRequest{Subscription: "a", AckIds: []string{"x"}}, &ggrpc.UnaryServerInfo{FullMethod: "/google.pubsub.v1.Subscriber/Acknowledge"},
-					func(ctx context.Context, req interface{}) (interface{}, error) { return nil, nil }); uerr != nil {
-					bad = fmt.Sprintf("round %d: Acknowledge failed although the only fault is on StreamingPull:RecvMsg: %v", round, uerr)
-					break
+				// (in every other round a unary call naming subscription a comes in between: its parameters are its own too)
+				if round%2 == 1 {
+					_, uerr := uinj(context.Background(), &pubsubpb.AcknowledgeRequest{Subscription: "a", AckIds: []string{"x"}}, &ggrpc.UnaryServerInfo{FullMethod: "/google.pubsub.v1.Subscriber/Acknowledge"},
+						func(ctx context.Context, req interface{}) (interface{}, error) { return nil, nil })
+					if uerr != nil {
+						bad = fmt.Sprintf("round %d: Acknowledge failed although the only fault is on StreamingPull:RecvMsg: %v", round, uerr)
+						break
+					}
 				}
 				if err := ss.RecvMsg(&r2); err != nil {
 					bad = fmt.Sprintf("round %d: after a message for subscription a, an ack-only message (no subscription field) was failed by the fault {StreamingPull:RecvMsg, subscription=a}", round)
